@@ -286,6 +286,19 @@ def report_abort(run, c, tag, name):
         ctx.fail("%s:%s" % (tag, io), "%s aborts (%s) for a validated configuration" % (name, io), case=c.line, detail=detail)
 
 
+def nonfinite_solver_answer(ctx, c, o, tag):
+    """NaN / inf in what the eigensolver returned: for the randomized solver on rank-deficient input this is its known
+    weakness (normalising a zero column; C05's F-RAND-RANKDEF) and the case is only counted; for the dense solver it is a
+    violated contract"""
+    if not re.search(r"nan|inf", o.get("V", "") + "," + o.get("lam", "")):
+        return False
+    ctx.stat("%s:solver-answer-nonfinite:%s" % (tag, c.eig))
+    if c.eig == "dense":
+        ctx.broken("contract:eig-nonfinite", "contract: eigensolver returns finite values",
+                   "the dense eigensolver returned NaN/inf for a finite matrix", case=c.line, detail=c.io[:1500])
+    return True
+
+
 class LmdsCase:
     """one Landmark-MDS run + the runs it is compared with"""
 
@@ -311,6 +324,8 @@ def judge_lmds(run, cases):
         lm = [] if o.get("lm", "-") == "-" else [int(x) for x in o["lm"].split(",")]
         c.lm = lm
         if "exc" in o or "Y" not in o:
+            continue
+        if nonfinite_solver_answer(ctx, c, o, "lmds"):
             continue
         distm = o["D"] if c.pts is not None else show_mat(c.dist)
         cl = "chk kind=lmds n=%d d=%d lm=%s dist=%s" % (c.n, c.d, show_idx(lm), distm)
@@ -485,6 +500,8 @@ def judge_lisomap(run, cases):
         c.lm = [int(x) for x in o["lm"].split(",")] if o.get("lm", "-") != "-" else []
         if "dblmax" in o.get("G", ""):
             ctx.stat("lisomap:disconnected-skipped")
+            continue
+        if nonfinite_solver_answer(ctx, c, o, "lisomap"):
             continue
         cl = "chk kind=lisomap n=%d d=%d lm=%s dense=%d G=%s B=%s V=%s lam=%s q=%s Y=%s" % (
             c.n, c.d, show_idx(c.lm), 1 if c.eig == "dense" else 0, o["G"], o["B"], o["V"], o["lam"], o["q"], o["Y"])
@@ -706,7 +723,9 @@ def full_api(run, cases):
         ctx.broken("harness-build-full", "harness c11_landmarks.cpp -DC11_FULL_API",
                    "full-API harness does not compile against the repository: " + log[-1200:])
         return
-    lines = [c.line for c in cases]
+    # (the randomized solver is left out: on rank-deficient input it normalises a zero column and what comes out of the
+    # NaNs differs between translation units — C05's F-RAND-RANKDEF)
+    lines = [c.line for c in cases if c.eig == "dense"]
     light = run.impl(lines)
     full = Run(ctx, binary).impl(lines)
     diff = [(l, a, b) for l, a, b in zip(lines, light, full) if a != b and not (a.startswith("abort:") and b.startswith("abort:"))]
